@@ -157,6 +157,65 @@ def _do_cases(cfg, cases, seed, rep, part, pid):
                     "case": cases[len(cases) // 2]})
 
 
+def w_bidir(item, rep):
+    """two directions: the peer's payload sits unread in the transmitter's RX FIFO while the transmitter sends with
+    send_only=True (documented: the RX FIFO is left alone) - afterwards the transmitter's application still reads the
+    peer's payload, exactly once, and the peer got exactly what was sent"""
+    cfg, seed, pid = item
+    lite_a, lite_b = cfg["tx_cls"] == "lite", cfg["rx_cls"] == "lite"
+    back = bytes([0x42, 0x52, 0x62, 0x72, 0x82][:cfg["aw"]])
+    for form in ("single", "list", "tuple"):
+        for n_back in (1, 5, cfg["pl"] if not cfg["dyn"] else 32):
+            for lens in ((1,), (7, 32), (32, 1, 9)):
+                if form == "single" and len(lens) > 1:
+                    continue
+                w, a, ra, b, rb = link.build_pair(cfg)
+                dyn, pl = cfg["dyn"], cfg["pl"]
+                a.open_rx_pipe(1, back)
+                a.listen = True
+                b.listen = False
+                b.open_tx_pipe(back)
+                p_back = H.pattern(n_back, seed, 77)
+                r0 = b.send(p_back)
+                b.listen = True
+                a.listen = False
+                w.advance(300 * link.US)
+                bufs = [H.pattern(n, seed, 80 + i) for i, n in enumerate(lens)]
+                arg = bufs[0] if form == "single" else (list(bufs) if form == "list" else tuple(bufs))
+                exc = None
+                try:
+                    a.send(arg, send_only=True)
+                except (HarnessError, Abort):
+                    raise
+                except Exception as e:  # noqa
+                    exc = type(e).__name__
+                w.advance(3 * link.MS)
+                got_b = link.drain(b)
+                a.listen = True
+                w.advance(300 * link.US)
+                got_a = link.drain(a)
+                rep.case()
+                rep.transitions += 2
+                rep.traces += 1
+                rep.part("bidir", executions=1)
+                mode = "dyn" if dyn else "static"
+                rep.outcome("bidir:%s:%s:%d" % (mode, form, len(got_a)))
+                rep.nt("bidir:%r" % ((_cfg_key(cfg), form, n_back, lens),))
+                rd = {"part": "bidir", "cfg": cfg, "seed": seed}
+                want_b = [esb.expected_payload(dyn, pl, x) for x in bufs]
+                want_a = [esb.expected_payload(dyn, pl, p_back)]
+                if r0 is not True and r0 is not None and not isinstance(r0, (bytes, bytearray)) or r0 is False:
+                    raise HarnessError("reverse payload not delivered")
+                if exc:
+                    rep.violation("%s/exception-%s:bidir:%s" % (pid, exc, form), "send(%s, send_only=True) raised %s" % (form, exc), rd)
+                elif [g[2] for g in got_b] != want_b:
+                    rep.violation("%s/bidir:peer-content:%s:%s" % (pid, mode, form), "peer read %r, expected %r" % ([g[2] for g in got_b], want_b), rd)
+                if [g[2] for g in got_a] != want_a:
+                    rep.violation("%s/bidir:own-rx-fifo-disturbed:%s:%s" % (pid, mode, form),
+                                  "a payload the peer had sent (%d bytes) was waiting unread while send(%s, send_only=True) ran; afterwards the application reads %r"
+                                  % (n_back, form, [g[2] for g in got_a]), rd)
+
+
 # ---------------------------------------------------------------- work items
 def w_core(item, rep):
     cfg, seed, pid, lens = item
@@ -287,6 +346,11 @@ def run_link(tier, seed, rep, tx_cls="full", rx_cls="full", pid=PID, only=None):
         pmap(w_perpipe, perpipe, rep)
     if not only or "burst" in only:
         pmap(w_burst, burst, rep)
+    if not only or "bidir" in only:
+        fa = "busio" if tx_cls == "lite" else "spidev"
+        fb = "busio" if rx_cls == "lite" else "spidev"
+        bb = dict(tx_cls=tx_cls, rx_cls=rx_cls, front_a=fa, front_b=fb, addr_salt=seed)
+        pmap(w_bidir, [(link.default_cfg(dyn=d_, pl=p_, **bb), seed, pid) for d_, p_ in ((True, 32), (False, 8), (False, 32))], rep)
     if not only or "core" in only:
         pmap(w_core, core, rep)
     if not only or "cross" in only:
@@ -306,7 +370,8 @@ def run(tier, seed, rep, only=None):
         rule="E-ENUM: every (length mode dyn|static 1..32) x payload length 0..40 x bytes/bytearray x send|write+poll on a "
              "fresh copy of a configured RF24 pair; every pipe 0..5 x address width x data rate x CRC/auto-ack x ask_no_ack x "
              "channel x SPI front at 3 lengths; every list/tuple/sequence of 1..3 payloads over 3 lengths; per-pipe static length vectors x pipe x boundary "
-             "lengths; bursts of 1..5 write(write_only=True) calls before CE is raised (peer must get exactly the accepted ones). A case is "
+             "lengths; bursts of 1..5 write(write_only=True) calls before CE is raised (peer must get exactly the accepted ones); two directions: the peer's payload waits unread in the "
+             "transmitter's RX FIFO during send(single|list|tuple, send_only=True) and is read afterwards. A case is "
              "non-trivial when the peer received at least one payload or a ValueError was due; distinct = distinct "
              "(configuration, case). states = configured initial states + distinct non-trivial result cases; transitions = executions.",
         bounds=dict(lengths="0..40", static_lengths="1..32", list_depth=3, channels="0,76,125" if tier == "quick" else "0..125", **b),
@@ -319,6 +384,12 @@ def run(tier, seed, rep, only=None):
 
 def replay(data):
     r = data["replay"]
+    if r.get("part") == "bidir":
+        from ..engine import Report
+        rep = Report()
+        w_bidir((r["cfg"], r["seed"], data.get("property", PID)), rep)
+        want = data.get("signature")
+        return [(s_, v_["what"]) for s_, v_ in rep.violations.items() if want is None or s_ == want]
     cfg, case, seed = r["cfg"], r["case"], r["seed"]
     pack = link.build_pair(cfg)
     viol, outcome, got = run_case(pack, cfg, case, seed, data.get("property", PID))
